@@ -61,8 +61,8 @@ fn main() {
                         let r = guarded(|| match k {
                             "R" => t.io_recv(&unhex(f[5]), max, &script, f[4].parse().unwrap()),
                             "AR" => t.aio_recv(&unhex(f[5]), max, &script, f[4].parse().unwrap()),
-                            "S" => t.io_send(&parse_ds(&f[4..].join(" ").replace('|', " ")), max, &script),
-                            _ => t.aio_send(&parse_ds(&f[4..].join(" ").replace('|', " ")), max, &script),
+                            "S" => t.io_send(&fvharness::parse_msgs(&f[4..].join(" ")), max, &script),
+                            _ => t.aio_send(&fvharness::parse_msgs(&f[4..].join(" ")), max, &script),
                         }).unwrap_or_else(|| "PANIC".into());
                         writeln!(out, "{}", r).unwrap();
                     }
